@@ -91,6 +91,8 @@ class Models:
                 return P.abstract_call(ex, v, '__len__', [], {})
         if isinstance(v, P.IterView):
             return len(v.concrete(ex))
+        if isinstance(v, SigParams):
+            return v.length(ex)
         raise OutOfSubset(f'len of {v!r}')
 
     def b_isinstance(self, v, t):
@@ -696,6 +698,40 @@ class Models:
     def x_pathlib_Path(self):
         return ClassVal(('ext', 'pathlib.Path'))
 
+    # ------------------------------------------------------------------ inspect (A-inspect)
+    def x_inspect_signature(self):
+        return Builtin('inspect.signature', lambda ex_, a, k: SigObj(ex_, a[0]))
+
+    def x_inspect_isabstract(self):
+        def isabs(ex_, a, k):
+            v = a[0]
+            if isinstance(v, Ref) and isinstance(ex_.run.cell(v), AbstractObj):
+                return P.getattr_(ex_, v, '__isabstract__')
+            if isinstance(v, ClassVal) and not isinstance(v.ci, tuple):
+                return any(fi.is_abstract for c in v.ci.mro() if hasattr(c, 'methods') for fi in c.methods.values()
+                           if v.ci.lookup(fi.qualname.split('.')[-1]) == ('method', fi))
+            raise OutOfSubset('inspect.isabstract')
+        return Builtin('inspect.isabstract', isabs)
+
+    def x_inspect_isclass(self):
+        def iscls(ex_, a, k):
+            v = a[0]
+            if isinstance(v, ClassVal):
+                return True
+            if isinstance(v, Ref) and isinstance(ex_.run.cell(v), AbstractObj):
+                return P.getattr_(ex_, v, '__isclass__')
+            return False
+        return Builtin('inspect.isclass', iscls)
+
+    def x_inspect_Parameter(self):
+        return ClassVal(('ext', 'inspect.Parameter'))
+
+    def x_inspect_Parameter_empty(self):
+        return ClassVal(('ext', 'inspect.Parameter.empty'))
+
+    def x_inspect(self):
+        return ModuleVal(('ext', 'inspect'))
+
     # ------------------------------------------------------------------ shutil (A-fs)
     def x_shutil_move(self):
         from . import fsmodel
@@ -766,6 +802,31 @@ def sha256_hex(ex, text):
     f = P.ufn('sha256_hex', [z3.StringSort()], z3.StringSort())
     ex.run.assume(z3.Length(f(t)) == 64)
     return Sym(K.Str, f(t))
+
+
+class SigObj(ExtObj):
+    """inspect.signature(f): for an abstract callable the interface says how many parameters it has
+    (`__sig_len__`) or gives them as a symbolic sequence (`__sig_params__`: Seq of (name, has_default, default))."""
+
+    def __init__(self, ex, target):
+        self.target = target
+
+    def a_parameters(self, ex):
+        return SigParams(self.target)
+
+
+class SigParams(ExtObj):
+    def __init__(self, target):
+        self.target = target
+
+    def length(self, ex):
+        return P.getattr_(ex, self.target, '__sig_len__')
+
+    def m_items(self, ex):
+        return P.getattr_(ex, self.target, '__sig_params__')
+
+    def m_keys(self, ex):
+        return P.getattr_(ex, self.target, '__sig_names__')
 
 
 class ShaObj(ExtObj):
